@@ -287,6 +287,9 @@ def _replace(obj, path, new):
     return obj
 
 
+PROTECTED_KEYS = ('kind', 'k', 'p', 'op', 'comb', 'flag', 'placement', 'gap', 'call', 'type')
+
+
 def reduce_case(case, still_fails, time_cap=60.0, hoist=True):
     """Greedy structural reduction of a JSON case while `still_fails(case)` holds."""
     t_end = time.time() + time_cap
@@ -298,6 +301,8 @@ def reduce_case(case, still_fails, time_cap=60.0, hoist=True):
         for path, sub in list(_walk(case)):
             if time.time() > t_end:
                 break
+            if path and path[-1] in PROTECTED_KEYS:
+                continue
             try:
                 cur = _get(case, path)
             except (KeyError, IndexError, TypeError):
